@@ -756,6 +756,10 @@ func streamWireDec(o *Out, rng *rand.Rand, thorough bool, _ []string) {
 				schema = genSchema(rng, 0, 4, false, 8)
 			}
 			count := 1 + rng.Intn(8)
+			if rng.Intn(6) == 0 {
+				// long chunks: with sparse metrics the delta count exceeds the payload's byte length
+				count = []int{16, 40, 100, 130, 300}[rng.Intn(5)]
+			}
 			docs := genDocs(rng, schema, count)
 			if opt.metaEvery > 0 && c%opt.metaEvery == 0 {
 				stream = append(stream, refMetaDoc(opt, int64(1000+c), instantiate(rng, genSchema(rng, 0, 3, false, 5), 0))...)
